@@ -277,10 +277,81 @@ def rand_prop_case(rng, force_class=None):
     return {'kind': 'prop', 'aa': aa, 'units': units, 'frags': frags}
 
 
+def rand_bmult_case(rng):
+    """base graphs with BRANCH multipliers `anchor(branch)|n` (n = 2, 3) at top level: annotated anchors in every
+    positional / keyword form with free keys, annotated nodes inside the multiplied branch, annotated multiplied
+    nodes `[#A;q=1]|3` inside and outside; expected = the unit written out.  Kept outside the reader's remaining
+    defect classes: one branch per anchor (no sibling before the multiplier), no ring bond and no nested branch
+    inside a unit, no node that closes two branches."""
+    aa = rng.random() < 0.5
+    safe = dict(nums=NUMS_PLAIN + [' 1 ', 'inf', '1e-05'], freek=SAFEK, freev=SAFEV)
+    fnames = rng.sample(['A', 'B', 'PEO', 'X1'], rng.randint(1, 3))
+
+    def node(p_annot=0.8, p_mult=0.25):
+        fn = rng.choice(fnames)
+        if rng.random() < p_annot:
+            assign, free = rand_annot(rng, 0, fragname=fn, **safe)
+        else:
+            assign, free = [['fragname', fn]], []
+        es = one_writing(rng, 0, assign, free, fragname_first=True)
+        return {'annot': {'assign': assign, 'free': free, 'ents': es},
+                'mult': rng.choice([2, 3]) if rng.random() < p_mult else 1}
+    units = []
+    nunits = rng.randint(1, 3)
+    have_unit = False
+    for k in range(nunits):
+        if rng.random() < 0.7 or (k == nunits - 1 and not have_unit):
+            u = node(p_annot=0.9, p_mult=0.0)
+            u['branch'] = {'nodes': [node() for _ in range(rng.randint(1, 2))], 'n': rng.choice([2, 3])}
+            have_unit = True
+        else:
+            u = node()
+        units.append(u)
+    frags = []
+    for fn in fnames:
+        tmpl = [t if not isinstance(t, tuple) else ('[' + t[0] + ']' if aa else '[' + t[0] + ']')
+                for t in rng.choice((AA_TEMPLATES[:3] + AA_TEMPLATES[4:6]) if aa else CG_TEMPLATES[:3])]
+        frags.append({'name': fn, 'tokens': [''.join(tmpl)]})
+    return {'kind': 'prop', 'aa': aa, 'units': units, 'frags': frags}
+
+
+def expand_units(units):
+    """the annotation of every node of the base graph in key order, with all multipliers written out:
+    a node `[#A;..]|m` gives m nodes; a unit `[#A;..]([#B;..]..)|n` gives n times (anchor, branch nodes)"""
+    out = []
+    for u in units:
+        br = u.get('branch')
+        if not br:
+            out += [u['annot']] * u['mult']
+        else:
+            one = [u['annot']]
+            for b in br['nodes']:
+                one += [b['annot']] * b['mult']
+            out += one * br['n']
+    return out
+
+
+def unit_annots(units):
+    """every annotation written in the base graph (once each)"""
+    out = []
+    for u in units:
+        out.append(u['annot'])
+        for b in (u.get('branch') or {'nodes': []})['nodes']:
+            out.append(b['annot'])
+    return out
+
+
+def render_node(u):
+    return '[#' + render_ents(u['annot']['ents']) + ']' + ('|%d' % u['mult'] if u['mult'] > 1 else '')
+
+
 def render_prop(case):
     base = ''
     for u in case['units']:
-        base += '[#' + render_ents(u['annot']['ents']) + ']' + ('|%d' % u['mult'] if u['mult'] > 1 else '')
+        base += render_node(u)
+        br = u.get('branch')
+        if br:
+            base += '(' + ''.join(render_node(b) for b in br['nodes']) + ')' + '|%d' % br['n']
     defs = []
     for f in case['frags']:
         t = ''
@@ -318,7 +389,7 @@ class C14(common.Prop):
                      'From CGV Require Import Base.PyBase Base.PyVal Dialect.DialectImpl Dialect.DialectDefs '
                      'Dialect.DialectCheck.')
     shard = 60
-    quick_cases = 420
+    quick_cases = 470
     thorough_cases = 6000
     extended_cases = 1500
     fail_text = {1: 'two writings of the same annotation (positional/keyword, keyword order) give different attributes',
@@ -379,6 +450,26 @@ class C14(common.Prop):
                     'frags': [{'name': 'A', 'tokens': ['[$]C', {'atom': 'C', 'annot': {
                         'assign': [['x', 'R'], ['w', '0.5']], 'free': [['k', 'v']],
                         'ents': [['K', 'x', 'R'], ['P', '0.5'], ['K', 'k', 'v']]}}, '(F)[$]']}]})
+        # branch multipliers: annotated anchor / annotated node inside the unit / annotated multiplied node
+        def an(name, assign=(), free=(), ents=None):
+            assign = [['fragname', name]] + [list(x) for x in assign]
+            return {'assign': assign, 'free': [list(x) for x in free],
+                    'ents': ents if ents is not None else [['P', name]] + [['K', k, v] for k, v in assign[1:]] +
+                    [['K', k, v] for k, v in free]}
+        fr = [{'name': 'A', 'tokens': ['[$]C[$]']}, {'name': 'B', 'tokens': ['[$]CO[$]']}]
+        for n in (2, 3):
+            out.append({'kind': 'prop', 'aa': True, 'frags': fr, 'units': [
+                {'annot': an('A', [('q', '1')]), 'mult': 1, 'branch': {'nodes': [{'annot': an('B'), 'mult': 1}], 'n': n}}]})
+            out.append({'kind': 'prop', 'aa': True, 'frags': fr, 'units': [
+                {'annot': an('A', [('q', '1'), ('w', '0.5')], [('foo', 'bar')], ents=[['P', 'A'], ['P', '1'], ['P', '0.5'], ['K', 'foo', 'bar']]),
+                 'mult': 1, 'branch': {'nodes': [{'annot': an('B', [('w', '2')], [('m', '3')]), 'mult': 1},
+                                                 {'annot': an('A', [('q', '-0.25')]), 'mult': 2}], 'n': n}},
+                {'annot': an('B', [('q', '1')]), 'mult': 3}]})
+            out.append({'kind': 'prop', 'aa': True, 'frags': fr, 'units': [
+                {'annot': an('B'), 'mult': 1},
+                {'annot': an('A', [('w', '2')], [('k1', 'v')], ents=[['P', 'A'], ['K', 'k1', 'v'], ['K', 'w', '2']]), 'mult': 1,
+                 'branch': {'nodes': [{'annot': an('B', [('q', '+1')]), 'mult': 1}], 'n': n}},
+                {'annot': an('A', [], [('mass', '72')]), 'mult': 1}]})
         return out
 
     def generate(self, ctx, n):
@@ -394,8 +485,10 @@ class C14(common.Prop):
             elif r < 0.65:
                 d = rng.choice((0, 1))
                 out.append({'kind': 'parse', 'd': d, 'text': fuzz_text(rng, d)})
-            else:
+            elif r < 0.88:
                 out.append(rand_prop_case(rng))
+            else:
+                out.append(rand_bmult_case(rng))
         return out
 
     # -- implementation ------------------------------------------------------------------------
@@ -410,7 +503,7 @@ class C14(common.Prop):
         # propagation
         from cgsmiles.resolve import MoleculeResolver
         s = render_prop(case)
-        texts = [render_ents(u['annot']['ents']) for u in case['units']]
+        texts = [render_ents(a['ents']) for a in unit_annots(case['units'])]
         for f in case['frags']:
             texts += [render_ents(t['annot']['ents']) for t in f['tokens'] if isinstance(t, dict)]
         tbl = float_table({c for t in texts for c in candidates(t)})
@@ -420,12 +513,9 @@ class C14(common.Prop):
         except Exception as exc:
             return {'s': s, 'exc': exc_desc(exc), 'table': tbl}
         base = []
-        node = 0
-        for u in case['units']:
-            for _ in range(u['mult']):
-                base.append({'name': dict(u['annot']['assign']).get('fragname'),
-                             'obs': simple_attrs(meta.nodes[node]) if node in meta.nodes else {}})
-                node += 1
+        for node, an in enumerate(expand_units(case['units'])):
+            base.append({'name': dict(an['assign']).get('fragname'),
+                         'obs': simple_attrs(meta.nodes[node]) if node in meta.nodes else {}})
         by_fragid = {}
         for k in sorted(mol.nodes):
             fid = mol.nodes[k].get('fragid')
@@ -459,16 +549,12 @@ class C14(common.Prop):
             return '(CForms %s %s %s %s %s)' % (lit.nat(case['d']), tbl, coq_entries(case['assign']),
                                                coq_entries(case['free']), vs)
         if 'exc' in impl:
-            nb = sum(u['mult'] for u in case['units'])
+            nb = len(expand_units(case['units']))
             na = sum(1 for f in case['frags'] for t in f['tokens'] if isinstance(t, dict))
             impl = dict(impl, base=[{}] * nb, atoms=[{'copies': []}] * na)
         base = []
-        k = 0
-        for u in case['units']:
-            for _ in range(u['mult']):
-                base.append('(%s, %s, %s)' % (coq_annot(u['annot']), lit.s(render_ents(u['annot']['ents'])),
-                                              lit.attrs(impl['base'][k])))
-                k += 1
+        for k, an in enumerate(expand_units(case['units'])):
+            base.append('(%s, %s, %s)' % (coq_annot(an), lit.s(render_ents(an['ents'])), lit.attrs(impl['base'][k])))
         atoms = []
         k = 0
         for f in case['frags']:
@@ -509,6 +595,9 @@ class C14(common.Prop):
             return 'forms:d%d:%s' % (case['d'], 'ok' if 'ok' in r else r['err'])
         if 'exc' in impl:
             return 'prop:exception:' + impl['exc']
+        if any(u.get('branch') for u in case['units']):
+            return 'prop:branch-multiplier:n%d:%s' % (max(u['branch']['n'] for u in case['units'] if u.get('branch')),
+                                                      'atomistic' if case['aa'] else 'coarse')
         reuse = max([len(a['copies']) for a in impl['atoms']] + [0])
         return 'prop:%s:reuse%d' % ('atomistic' if case['aa'] else 'coarse', reuse)
 
